@@ -14,11 +14,11 @@ VARIABLES tid, l, verdict
 vars == <<tid, l, verdict>>
 Near(x, y, tau) == IF x = Nan \/ y = Nan THEN x = y ELSE (x - y <= tau /\ y - x <= tau)
 Clause(e, o, n, tau) ==
-  LET dSD == IF e.action = "ScaleLoads" THEN e.arg * Unit ELSE 0
+  LET dSD == IF e.action = "ScaleLoads" THEN e.arg * Unit ELSE IF e.action = "ChangeUnit" THEN e.dmicro ELSE 0        \* ChangeUnit logs the micro-log of (new factor / old factor)
       dND == IF e.action = "ScaleCycles" THEN e.arg * Unit ELSE 0
   IN IF ~Near(n.SD, IF o.SD = Nan THEN Nan ELSE o.SD + dSD, tau) THEN "SD"
      \* without run-outs SD = 0 and ND is evaluated at the artificial load 0.1: its behaviour under load scaling is not claimed
-     ELSE IF ~(e.action = "ScaleLoads" /\ o.SD = Nan) /\ ~Near(n.ND, IF o.ND = Nan THEN Nan ELSE o.ND + dND, tau) THEN "ND"
+     ELSE IF ~(e.action \in {"ScaleLoads", "ChangeUnit"} /\ o.SD = Nan) /\ ~Near(n.ND, IF o.ND = Nan THEN Nan ELSE o.ND + dND, tau) THEN "ND"
      ELSE IF ~Near(n.k_1, o.k_1, tau) THEN "k_1"
      ELSE IF ~Near(n.TN, o.TN, tau) THEN "TN"
      ELSE IF ~Near(n.TS, o.TS, tau) THEN "TS"
